@@ -991,6 +991,7 @@ func runC17(c *Ctx) {
 	if c.Seed == 1 || c.Thorough() {
 		runC17SessionProbe(c)
 	}
+	runC17Consumer(c)
 	// long free-PRNG histories: liveness and rotation order of every selector
 	c.Cases("long", c.N(60, 600), func(r *Rng, i int) {
 		cs, err := c17Gen(r, false)
